@@ -94,4 +94,20 @@ def Sys.routes (reset : Bool) : Sys → List Op → List (Nat × Option Nat)
   | _, [] => []
   | y, op :: ops => (Sys.step reset y op).2.2 ++ Sys.routes reset (Sys.step reset y op).1 ops
 
+/-! ### listener glue: which cap / datagram size the shell hands to the manager -/
+
+/-- `effective_max_flows(configured, slab_headroom)` with the soft RLIMIT_NOFILE
+    as a parameter (`rlimit = 0`: could not be read): an explicit cap is honoured
+    as it is; `0` means auto = 70 % of the fd limit (at least 1; 1024 when the
+    limit is unknown), clamped to `max_connections` when that is set -/
+def effectiveMaxFlows (configured rlimit headroom : Nat) : Nat :=
+  if configured ≠ 0 then configured
+  else
+    let auto := if rlimit > 0 then max (rlimit * 7 / 10) 1 else 1024
+    if headroom = 0 then auto else max (min auto headroom) 1
+
+/-- `clamp_max_rx(configured, buffer_size)` -/
+def clampMaxRx (configured bufferSize : Nat) : Nat :=
+  if bufferSize = 0 then configured else min configured bufferSize
+
 end Sozu.Udp
